@@ -384,6 +384,14 @@ example :
        (.ascii, HMap.name "x-a", [50]), (.ascii, HMap.name "k-bin", [51])]) =
     [(HMap.name "x-a", [49]), (HMap.name "k-bin", HMap.name "/w"), (HMap.name "x-a", [50]),
      (HMap.name "te", HMap.name "trailers"), (HMap.name "content-type", HMap.name "application/grpc")] := by decide
+/- stored names are normalised; a custom name is absent from the blocks a status is written into -/
+example : HMap.normName (HMap.name "x-a-bin") = some (HMap.name "x-a-bin") ∧
+    HMap.getAll (HMap.name "x-a") [(Status.CONTENT_TYPE, GRPC_CONTENT_TYPE)] = [] ∧
+    HMap.name "x-a" ≠ Status.GRPC_STATUS_DETAILS := by decide
+/- the pinned-tree witness, and what the repaired tree answers -/
+example : get .orig .ascii (HMap.name "foo-BIN") [(HMap.name "foo-bin", HMap.name "AAEC")] = some (HMap.name "AAEC") ∧
+    get .fixed .ascii (HMap.name "foo-BIN") [(HMap.name "foo-bin", HMap.name "AAEC")] = none ∧
+    get .fixed .binary (HMap.name "foo-BIN") [(HMap.name "foo-bin", HMap.name "AAEC")] = some (HMap.name "AAEC") := by decide
 example : (HMap.name "x-a") ∉ Spec.Metadata.reserved ∧ (HMap.name "grpc-status") ∈ Spec.Metadata.reserved := by decide
 
 end C08
